@@ -315,6 +315,13 @@ class Sim:
             if not self._fire_timers():
                 if all(t.state == 'done' for t in self.tasks):
                     return None
+                waiting = [t for t in self.tasks if t.state == 'blocked' and t.block and t.block[0] == 'event']
+                if waiting:
+                    # helpers waiting for a trigger that never came: let them finish
+                    for t in waiting:
+                        self._unblock(t)
+                    runnable = self._runnable()
+                    continue
                 raise SimIncident('deadlock', 'blocked: %s' % [
                     (t.name, t.block[:2] if t.block else None) for t in self.tasks if t.state != 'done'])
             runnable = self._runnable()
@@ -390,6 +397,11 @@ class Sim:
                 f['where'] = [kind, detail]
                 self.kill_proc(task.proc, torn=f.get('torn'))
                 raise Killed()
+            elif ft == 'hook':
+                if f.get('task') != task.name or task.op != f['op'] or task.op_seams != f['k']:
+                    continue
+                f['done'] = True
+                f['fn'](task, kind, detail)
             elif ft == 'stall':
                 if f.get('task') != task.name:
                     continue
